@@ -23,6 +23,7 @@
 
 struct in_t {
     unsigned short uid, euid, gid, egid, pid, ppid, sid, tid, tty_uid;
+    unsigned short second;      /* value of the queried id at a SECOND evaluation in the same memory image (other thread / forked child) */
     unsigned char fl[12];
     char tty[V_NAMECAP], pw[V_NAMECAP], gr[V_NAMECAP], cwd[V_NAMECAP], host[V_NAMECAP], login[V_NAMECAP], tout[V_NAMECAP];
     char arg[6];
@@ -99,7 +100,16 @@ static void setup(void)
 
 #define TERMINATED() V_ASSERT(strnlen(buf, BUFSZ) < BUFSZ, "C12/C02: result NUL-terminated inside its buffer")
 
-#define NUMERIC(fn, ghost, msg) void harness(void) { setup(); fn(buf, BUFSZ, ""); TERMINATED(); V_ASSERT(is_dec(buf, (unsigned long)(ghost), 0), msg); V_WITNESS(); }
+/* every numeric source is evaluated twice: the second time the process state differs (another thread, a forked child);
+ * the answer must follow the state at the time of the call, nothing may be kept from the first evaluation */
+static void second_state(void)
+{
+    v_sys.uid = v_sys.euid = IN.second; v_sys.gid = v_sys.egid = IN.second;
+    v_sys.pid = v_sys.ppid = v_sys.sid = v_sys.tid = IN.second; v_sys.tty_uid = IN.second;
+    memset(buf, 0x55, sizeof buf); buf[0] = '\0';
+}
+#define NUMERIC(fn, ghost, msg) void harness(void) { setup(); fn(buf, BUFSZ, ""); TERMINATED(); V_ASSERT(is_dec(buf, (unsigned long)(ghost), 0), msg); \
+    second_state(); fn(buf, BUFSZ, ""); TERMINATED(); V_ASSERT(is_dec(buf, (unsigned long)IN.second, 0), "C12: a later evaluation reports the state at THAT time (nothing cached from an earlier call)"); V_WITNESS(); }
 
 #if defined(DS_uid)
 NUMERIC(snoopy_datasource_uid, IN.uid, "C12: uid = real user id")
@@ -116,11 +126,16 @@ NUMERIC(snoopy_datasource_ppid, IN.ppid, "C12: ppid = parent process id")
 #elif defined(DS_sid)
 void harness(void) { setup(); snoopy_datasource_sid(buf, BUFSZ, ""); TERMINATED();
     V_ASSERT(v_sys.getsid_arg == 0 || v_sys.getsid_arg == (pid_t)IN.pid, "C12: sid queried for the calling process");
-    V_ASSERT(is_dec(buf, IN.sid, 0), "C12: sid = session id"); V_WITNESS(); }
+    V_ASSERT(is_dec(buf, IN.sid, 0), "C12: sid = session id");
+    second_state(); snoopy_datasource_sid(buf, BUFSZ, ""); TERMINATED();
+    V_ASSERT(is_dec(buf, IN.second, 0), "C12: a later evaluation of sid reports the state at that time"); V_WITNESS(); }
 #elif defined(DS_tid_kernel)
 void harness(void) { setup(); V_ASSUME(IN.tid != 0); snoopy_datasource_tid_kernel(buf, BUFSZ, ""); TERMINATED();
     V_ASSERT(v_sys.syscall_nr == SYS_gettid, "C12: tid_kernel asks the kernel for gettid");
-    V_ASSERT(is_dec(buf, IN.tid, 0), "C12: tid_kernel = kernel thread id"); V_WITNESS(); }
+    V_ASSERT(is_dec(buf, IN.tid, 0), "C12: tid_kernel = kernel thread id");
+    V_ASSUME(IN.second != 0);
+    second_state(); snoopy_datasource_tid_kernel(buf, BUFSZ, ""); TERMINATED();
+    V_ASSERT(is_dec(buf, IN.second, 0), "C12: a later evaluation of tid_kernel (another thread, a forked child) reports ITS thread id"); V_WITNESS(); }
 #elif defined(DS_username) || defined(DS_eusername)
 void harness(void) { setup();
 #ifdef DS_username
